@@ -113,7 +113,9 @@ pub fn run(ctx: &mut Ctx) {
     let cases = matcher_cases(prop, ctx, &cfg, n);
     ctx.ev.rule = "corpus + repo fixtures + generated ledgers (1–3 securities, 2–14 lines, dates clustered on window edges / month ends / 5–6 April, exact split ratios, fractional quantities; every third a contention shape). Compared (projection of this property): accept/reject, per-disposal-day leg quantity totals, closing holding quantities. Non-trivial = accepted ledger in which a disposal is spread over ≥ 2 rules or a 30-day leg crosses a split; distinct by ledger text.".into();
     let proj = Proj { money: false, qty: true, legs_exact: true, holdings: true, err_detail: false, legs_day_totals: true, legs_none: false };
+    let mut cli_left: u32 = if ctx.tier == Tier::Quick { 8 } else { 80 };
     for (name, l) in cases {
+        if cli_left > 0 && well_formed(&l) && l.len() >= 3 { cli_left -= 1; cli_crosscheck(ctx, prop, &l, None); }
         ctx.ev.evaluations += 1;
         let imp = run_impl::impl_match(&l);
         let msd = multi_sell_day(&l);
